@@ -3,6 +3,8 @@
 //!        -> hex of the model after replace_dictionary | err:invalid_argument
 //!   WJ <ints> <hex of the weights column the real tool wrote>   -> that column (model: joinWeights)
 //!   WP <hex string>                      -> parsed weights `ok:<ints>` | err
+//!   DF <model>                           -> hex of the file `manipulate_model --dump-dict` writes (model: csvDumpFile)
+//!   LF <hex bytes>                       -> `ok:<entries>;strict` | `err;strict`: what `--replace-dict` loads from this file (model: csvLoadFile)
 use vaporetto::{Model, Predictor, Sentence, WordWeightRecord};
 
 use crate::model::AbsModel;
@@ -53,6 +55,57 @@ pub fn run(toks: &[&str], fails: &mut Vec<(String, String)>) -> String {
                 }
                 Err(_) => "panic".into(),
             }
+        }
+        // DF <model>: the dictionary file that the real `manipulate_model --dump-dict` writes for this model, as hex
+        ["DF", m, ..] => {
+            let Some(m) = AbsModel::parse(m) else { return "bad-case".into() };
+            let dir = crate::cli::scratch_dir("c19df");
+            let (mp, cp) = (dir.join("m.zst"), dir.join("d.csv"));
+            let _ = std::fs::remove_file(&cp);
+            crate::cli::write_zst(&mp, &m.to_bytes());
+            let o = crate::cli::run_tool("manipulate_model", &["--model-in".into(), mp.display().to_string(), "--dump-dict".into(), cp.display().to_string()], b"");
+            let res = match (o.code, std::fs::read(&cp)) {
+                (Some(0), Ok(bytes)) => if bytes.is_empty() { "-".into() } else { hex(&bytes) },
+                _ => {
+                    if c19 {
+                        fails.push(("C19".into(), format!("manipulate_model --dump-dict failed (exit {:?}) on a model with {} dictionary entries", o.code, m.dict.len())));
+                    }
+                    "err".into()
+                }
+            };
+            let _ = std::fs::remove_dir_all(&dir);
+            res
+        }
+        // LF <hex bytes>: the dictionary that the real `manipulate_model --replace-dict` puts into a model when given this file
+        ["LF", h, ..] => {
+            let Some(bytes) = crate::util::unhex(h) else { return "bad-case".into() };
+            let dir = crate::cli::scratch_dir("c19lf");
+            let (mp, cp, op) = (dir.join("m.zst"), dir.join("d.csv"), dir.join("o.zst"));
+            let base = AbsModel { char_w: 1, type_w: 1, bias: 3, dict: vec![("旧".into(), vec![1, 2], "old".into())], ..Default::default() };
+            crate::cli::write_zst(&mp, &base.to_bytes());
+            std::fs::write(&cp, &bytes).unwrap();
+            let _ = std::fs::remove_file(&op);
+            let o = crate::cli::run_tool("manipulate_model", &["--model-in".into(), mp.display().to_string(), "--replace-dict".into(), cp.display().to_string(), "--model-out".into(), op.display().to_string()], b"");
+            let res = if o.code == Some(0) {
+                match crate::cli::read_zst(&op).as_deref().and_then(AbsModel::from_bytes) {
+                    Some(m2) => {
+                        if m2.dict.is_empty() {
+                            "ok:-".to_string()
+                        } else {
+                            format!("ok:{}", m2.dict.iter().map(|(w, ws, c)| format!("{}={}={}", hexs(w), ws.iter().map(|x| x.to_string()).collect::<Vec<_>>().join(","), hexs(c))).collect::<Vec<_>>().join("/"))
+                        }
+                    }
+                    None => "err:unreadable-output".into(),
+                }
+            } else {
+                if c19 && o.stderr.contains("panicked") {
+                    fails.push(("C19".into(), format!("manipulate_model --replace-dict panicked on the dictionary file {:?}", String::from_utf8_lossy(&bytes))));
+                }
+                "err".into()
+            };
+            let _ = std::fs::remove_dir_all(&dir);
+            // the generators stay inside the domain in which the model claims to agree with the csv crate's reader
+            format!("{res};strict")
         }
         ["WJ", _ints, col, ..] => col.to_string(),
         ["WP", h, ..] => {
@@ -223,6 +276,63 @@ pub fn gen(out: &mut dyn std::io::Write, thorough: bool, seed: u64) {
                     }
                 }
             }
+        }
+    }
+    // the FILE level (`VModel/CsvFile.lean`): what the real tool dumps, byte for byte, and what it loads from files an editor or
+    // a spreadsheet might produce from such a dump (every field quoted, CRLF, no final line break, blank lines) incl. bad records
+    if tool_ok {
+        let n_files = if thorough { 600 } else { 60 };
+        for i in 0..n_files {
+            let mut rows: Vec<(String, Vec<i32>, String)> = vec![];
+            let n_rows = if i == 0 { 0 } else { r.range(1, 5) as usize };
+            for k in 0..n_rows {
+                let w = if r.chance(1, 2) { HOSTILE[(i * 5 + k) % HOSTILE.len()].to_string() } else { (0..r.range(1, 4)).map(|_| *r.pick(&['a', 'あ', '漢', '1'])).collect() };
+                if rows.iter().any(|x| x.0 == w) || w.contains('\0') {
+                    continue;
+                }
+                let l = w.chars().count();
+                rows.push((w, (0..=l).map(|_| *r.pick(&[i32::MAX, i32::MIN, -1, 0, 7, 40])).collect(), HOSTILE[(i * 11 + k) % HOSTILE.len()].to_string()));
+            }
+            let m = AbsModel { char_w: 2, type_w: 1, dict: rows.clone(), ..Default::default() };
+            writeln!(out, "DF {} c19", m.to_text()).unwrap();
+            // hand-made files
+            let quote = |f: &str, always: bool| -> String {
+                if always || f.contains(',') || f.contains('"') || f.contains('\r') || f.contains('\n') { format!("\"{}\"", f.replace('"', "\"\"")) } else { f.to_string() }
+            };
+            let style = i % 6;
+            let term = if style == 2 { "\r\n" } else { "\n" };
+            let mut recs: Vec<Vec<String>> = vec![vec!["word".into(), "weights".into(), "comment".into()]];
+            for (w, ws, c) in &rows {
+                let mut wcol = ws.iter().map(|x| x.to_string()).collect::<Vec<_>>().join(" ");
+                let mut fields = vec![w.clone(), String::new(), c.clone()];
+                match r.below(14) {
+                    0 => wcol.push_str(" 1"),                       // one weight too many
+                    1 => wcol = wcol.rsplit_once(' ').map(|x| x.0.to_string()).unwrap_or_default(),   // one too few
+                    2 => wcol = wcol.replacen(' ', "  ", 1),        // an empty item
+                    3 => wcol = format!("{wcol}x"),                 // not a number
+                    4 => wcol = wcol.replacen(char::is_numeric, "99999999999", 1),   // out of range
+                    5 => fields.push("extra".into()),               // four fields
+                    6 => { fields.pop(); }                          // two fields
+                    7 => wcol = format!("+{wcol}"),                 // an explicit sign is accepted by `str::parse`
+                    _ => {}
+                }
+                fields[1] = wcol;
+                recs.push(fields);
+            }
+            let mut file = String::new();
+            for (k, rec) in recs.iter().enumerate() {
+                if style == 4 && k > 0 {
+                    file.push_str(term);                            // a blank line in front of every record
+                }
+                file.push_str(&rec.iter().map(|f| quote(f, style == 1)).collect::<Vec<_>>().join(","));
+                if !(style == 3 && k + 1 == recs.len()) {
+                    file.push_str(term);                            // style 3: no line break after the last record
+                }
+            }
+            if style == 5 && i % 12 == 5 {
+                file.clear();                                       // the empty file
+            }
+            writeln!(out, "LF {} c19", hexs(&file)).unwrap();
         }
     }
     for s in ["1 2", "1  2", "", " ", "+5", "-0", "2147483648", "-2147483649", "1a", "１", "-", "3 -4 +5"] {
